@@ -1254,7 +1254,10 @@ def run(ctx: Ctx):
         corpus = [c for c in corpus if c.get("cat") != "xrace"]
         cases = corpus + gen_codec_cases(ctx, rng.fork("codec"), scale) + gen_server_cases(ctx, rng.fork("srv"), scale, quick) + \
             gen_client_cases(ctx, rng.fork("cli"), scale, quick)
-        res = ctx.lockstep("ws", hb, cases)
+        # bounded memory: one lockstep round per 3000 cases (the thorough tier has ~140 000 cases; a single round peaked at 17 GB RSS)
+        res = []
+        for _i in range(0, len(cases), 3000):
+            res += ctx.lockstep("ws", hb, cases[_i:_i + 3000])
         by_stream = {}
         n_mismatch = 0
         for c, impl, model in res:
